@@ -6,6 +6,8 @@ pub mod keywords;
 pub mod utils;
 pub(crate) use keywords::*;
 pub(crate) use utils::*;
+#[cfg(feature = "verif-hooks")]
+pub mod verif_hooks;
 
 mod tests;
 
@@ -81,15 +83,31 @@ impl HasTracableInfo for SpanInfo {
     }
 }
 
+#[cfg(not(feature = "verif-hooks"))]
 impl HasExtraState<bool> for SpanInfo {
     fn get_extra_state(&self) -> bool {
         in_directive()
     }
 }
 
+#[cfg(feature = "verif-hooks")]
+impl HasExtraState<verif_hooks::Extra> for SpanInfo {
+    fn get_extra_state(&self) -> verif_hooks::Extra {
+        (in_directive(), self.recursive_info)
+    }
+}
+
 // -----------------------------------------------------------------------------
 
+#[cfg(not(feature = "verif-hooks"))]
 nom_packrat::storage!(AnyNode, bool, 1024);
+
+#[cfg(feature = "verif-hooks")]
+thread_local!(
+    pub(crate) static PACKRAT_STORAGE: core::cell::RefCell<verif_hooks::Storage> = {
+        core::cell::RefCell::new(verif_hooks::Storage::new(Some(verif_hooks::DEFAULT_CAPACITY)))
+    }
+);
 
 pub fn sv_parser(s: Span) -> IResult<Span, SourceText> {
     init();
@@ -117,6 +135,8 @@ pub fn pp_parser(s: Span) -> IResult<Span, PreprocessorText> {
 }
 
 fn init() {
+    #[cfg(feature = "verif-hooks")]
+    verif_hooks::event(verif_hooks::EventKind::Init, 0);
     nom_packrat::init!();
     clear_directive();
     clear_version();
